@@ -33,6 +33,9 @@ RULES = {
              '(an acknowledged write is a committed write with a new version)',
     'C02.i': 'a refused versioned write stays refused on its way back to the client: the replication table hands an Error / VersionError '
              'answer back before it is consulted (C04.k, repeated here: otherwise the loser of two same-base writers is answered Ok)',
+    'C02.j': 'the version arithmetic of the store cannot overflow: no overflow-checked `+` (a panic in debug builds, a wrap to i32::MIN in '
+             'release builds) in the store, the increment or next_version — `set-safe k 2147483647 v` must be an ordinary write; the panic '
+             'would be raised while the write guard of Database.map is held and poison it for every later command',
 }
 
 
@@ -192,6 +195,7 @@ def run(ck, m):
     marker_unforgeable(ck, m)
     from props import C04 as _C04
     _C04.refusal_not_replicated(ck, m, rule='C02.i')
+    version_arithmetic_saturates(ck, m)
     # ---- C02.c -------------------------------------------------------------------------
     rb = resolver_fn(m)
     sw = strategy_switch(m, rb)
@@ -670,3 +674,29 @@ def version_error_sites(m, sbod):
                         op = t['args'][r[1] - 1]
             out.append((bi, op, sbod))
     return out
+
+
+def version_arithmetic_saturates(ck, m):
+    """C02.j — see RULES"""
+    from nl import panics
+    P = m.prog
+    L = locks.LockModel(P)
+    C = panics.Census(P, L)
+    bodies = [store_fn(m), increment_fn(m)]
+    bodies += [b for b in P.user_bodies() if b.kind == 'method' and b.locals[0] == 'i32' and b.argc == 2 and b.locals[1] == '&nundb::bo::Change'
+               and b.locals[2] == '&nundb::bo::Value']
+    n, bad = 0, []
+    for b in bodies:
+        n += 1
+        for s in C.direct(b):
+            if s.what.startswith('assert:Overflow') and ('i32' in (s.detail or '') or True):
+                # only arithmetic on the i32 version / the increment's own number
+                bad.append('%s %s at %s' % (short(b.id), s.what, s.loc()))
+    # the increment adds the client's number with checked_add by design (refused when it overflows): its own asserts are not versions
+    bad = [x for x in bad if not x.startswith(short(increment_fn(m).id) + ' ') or 'version' in x]
+    ck.ob('C02.j', 'versions', 'version-arithmetic-cannot-overflow', not bad,
+          'no overflow-checked addition in the store / next_version (%d functions)' % n if not bad else
+          'overflow-checked addition on a version: %s — with a presented or stored version of i32::MAX the store panics (debug) while it holds '
+          'the write guard of Database.map, the lock stays poisoned and every later set, set-safe, increment, remove or get-safe on that '
+          'database fails; in a release build the sum wraps to i32::MIN and a write that is not older is refused' % bad, '')
+    ck.floor('C02.j', n, 3, 'functions doing version arithmetic')
